@@ -646,4 +646,31 @@ theorem mem_enumFrom_of_getElem : ∀ (is : List Instr) (k i : Nat) (x : Instr),
       have e : k + (j + 1) = k + 1 + j := by omega
       rw [e]; exact this
 
+/-- from a pairwise statement over the enumerated instructions to its index form -/
+theorem pairwise_enumFrom_index {R : Node × Instr → Node × Instr → Prop} : ∀ (is : List Instr) (k : Nat),
+    (enumFrom k is).Pairwise R → ∀ i j, i < j → ∀ x y, is[i]? = some x → is[j]? = some y →
+    R (.instr (k + i), x) (.instr (k + j), y) := by
+  intro is
+  induction is with
+  | nil => intro k _ i j _ x y hx; simp at hx
+  | cons z zs ih =>
+    intro k hp i j hij x y hx hy
+    simp only [enumFrom, List.pairwise_cons] at hp
+    cases i with
+    | zero =>
+      simp only [List.getElem?_cons_zero, Option.some.injEq] at hx
+      subst hx
+      obtain ⟨j', rfl⟩ : ∃ j', j = j' + 1 := ⟨j - 1, by omega⟩
+      simp only [List.getElem?_cons_succ] at hy
+      have := hp.1 _ (mem_enumFrom_of_getElem zs (k + 1) j' y hy)
+      have e : k + (j' + 1) = k + 1 + j' := by omega
+      simpa [e] using this
+    | succ i' =>
+      obtain ⟨j', rfl⟩ : ∃ j', j = j' + 1 := ⟨j - 1, by omega⟩
+      simp only [List.getElem?_cons_succ] at hx hy
+      have := ih (k + 1) hp.2 i' j' (by omega) x y hx hy
+      have e1 : k + (i' + 1) = k + 1 + i' := by omega
+      have e2 : k + (j' + 1) = k + 1 + j' := by omega
+      rw [e1, e2]; exact this
+
 end QV.Sched
